@@ -400,7 +400,7 @@ func mapObjectProperties(mm map[string][]byte, o *Object) (hasData bool, err err
 		}
 		hasData = true
 	}
-	if o.Duration > 0 {
+	if o.Duration != 0 {
 		if mm["duration"], err = gobEncodeInt64(int64(o.Duration)); err != nil {
 			return hasData, err
 		}
@@ -683,31 +683,31 @@ func mapPlaceProperties(mm map[string][]byte, p Place) (hasData bool, err error)
 		hasData, err = mapObjectProperties(mm, o)
 		return err
 	})
-	if p.Accuracy > 0 {
+	if p.Accuracy != 0 {
 		if mm["accuracy"], err = gobEncodeFloat64(p.Accuracy); err != nil {
 			return
 		}
 		hasData = true
 	}
-	if p.Altitude > 0 {
+	if p.Altitude != 0 {
 		if mm["altitude"], err = gobEncodeFloat64(p.Altitude); err != nil {
 			return
 		}
 		hasData = true
 	}
-	if p.Latitude > 0 {
+	if p.Latitude != 0 {
 		if mm["latitude"], err = gobEncodeFloat64(p.Latitude); err != nil {
 			return
 		}
 		hasData = true
 	}
-	if p.Longitude > 0 {
+	if p.Longitude != 0 {
 		if mm["longitude"], err = gobEncodeFloat64(p.Longitude); err != nil {
 			return
 		}
 		hasData = true
 	}
-	if p.Radius > 0 {
+	if p.Radius != 0 {
 		if mm["radius"], err = gobEncodeInt64(p.Radius); err != nil {
 			return
 		}
